@@ -86,7 +86,13 @@ func (c *RawHTTPResponder) writeResponse() error {
 	// a chunk terminator after them would be read as the start of the next response.
 	if c.response.ContentLength < 0 {
 		if bodyAllowedForStatus(c.response.StatusCode) {
-			c.response.TransferEncoding = []string{"chunked"}
+			if req := c.response.Request; req != nil && !req.ProtoAtLeast(1, 1) {
+				// An HTTP/1.0 client cannot read chunked framing: the body ends where the connection ends.
+				c.response.Proto, c.response.ProtoMajor, c.response.ProtoMinor = "HTTP/1.0", 1, 0
+				c.response.Close = true
+			} else {
+				c.response.TransferEncoding = []string{"chunked"}
+			}
 		} else {
 			c.response.ContentLength = 0
 		}
